@@ -122,6 +122,39 @@ class World:
         return st
 
 
+class TransitionTimeout(BaseException):
+    """The code under test did not return from one transition within the watchdog time."""
+
+
+WATCHDOG_S = float(os.environ.get("XMC_WATCHDOG_S", "10"))
+
+
+def _on_alarm(signum, frame):
+    raise TransitionTimeout()
+
+
+def guarded_apply(world, st, ev):
+    """world.apply under a watchdog: a transition that does not return (an unbounded loop in the code
+    under test) becomes a '<property>.hang' violation instead of hanging the check."""
+    import signal
+
+    old = signal.signal(signal.SIGALRM, _on_alarm)
+    signal.setitimer(signal.ITIMER_REAL, WATCHDOG_S)
+    try:
+        return world.apply(st, ev)
+    finally:
+        signal.setitimer(signal.ITIMER_REAL, 0)
+        signal.signal(signal.SIGALRM, old)
+
+
+def hang_violation(world, ev):
+    prop = getattr(world, "prop", None)
+    if prop is None:
+        raise HarnessError(f"transition {ev} did not return within {WATCHDOG_S}s in world {world.describe()}")
+    return Violation(prop, f"{prop}.hang", f"event {ev} did not return within {WATCHDOG_S:.0f} s (unbounded loop in the code under test)",
+                     ev=str(ev[0]) if isinstance(ev, tuple) else str(ev))
+
+
 def setup_process():
     clock.install()
     if not snapshot.REGISTRY.objs and not snapshot.REGISTRY.pristine:
@@ -129,6 +162,8 @@ def setup_process():
     import logging
 
     logging.disable(logging.CRITICAL)
+    if mp.current_process().name == "MainProcess":
+        sandbox.remove_stale()
 
 
 def obs_digest(obs) -> str:
@@ -145,15 +180,24 @@ def expand(world: World, blob: bytes, pre_key: bytes):
     late = [e for e in evs if world.is_late(e) and not world.is_free(e)]
     succs = []
     all_stutter = True
+    hung = False
     for group in (normal, late, free):
         if group is late and not all_stutter:
             continue
         for ev in group:
+            if hung:
+                break  # one hang decides the run; do not wait for the watchdog once per event
             st = world.restore(blob)
             sandbox.invalidate()
-            obs = world.apply(st, ev)
-            sandbox.invalidate()
-            viols = world.check(st, ev, obs)
+            try:
+                obs = guarded_apply(world, st, ev)
+                sandbox.invalidate()
+                viols = world.check(st, ev, obs)
+            except TransitionTimeout:
+                sandbox.invalidate()
+                obs = {"hang": True}
+                viols = [hang_violation(world, ev)]
+                hung = True
             k = world.key(st)
             stutter = k == pre_key and world.quiet(obs) and not viols
             if not stutter:
@@ -251,6 +295,7 @@ def explore(world: World, *, max_states=2_000_000, max_depth=None, procs=1, vali
     viol_seen = set()
     try:
         d = 0
+        hang_seen = False
         while frontier:
             if max_depth is not None and d >= max_depth:
                 res.cap_hit = True
@@ -276,6 +321,8 @@ def explore(world: World, *, max_states=2_000_000, max_depth=None, procs=1, vali
                             res.violations.append((v, idx, None, "terminal"))
                 for ev, dig, viols, k, nb, stutter, samekey in succs:
                     res.transitions += 1
+                    if viols and any(v["clause"].endswith(".hang") for v in viols):
+                        hang_seen = True
                     if stutter:
                         res.stutters += 1
                         continue
@@ -297,7 +344,7 @@ def explore(world: World, *, max_states=2_000_000, max_depth=None, procs=1, vali
                         depth.append(depth[idx] + 1)
                         nxt.append((j, nb, k))
                     edges.append((idx, j, ev))
-            frontier = nxt
+            frontier = [] if hang_seen else nxt
             d += 1
             if progress:
                 progress(d, len(index), res.transitions)
@@ -367,8 +414,10 @@ def explore(world: World, *, max_states=2_000_000, max_depth=None, procs=1, vali
                                 "observations": [o for _, o in trace][-6:]})
     finally:
         if pool is not None:
+            pids = [p.pid for p in getattr(pool, "_pool", [])]
             pool.terminate()
             pool.join()
+            sandbox.remove_for_pids(pids)
     res.wall = time.time() - t0
     return res
 
@@ -418,7 +467,9 @@ def explore_many(worlds, procs=NPROC, **kw):
         return [explore(w, **kw) for w in worlds]
     ctx = mp.get_context("fork")
     with ctx.Pool(procs, initializer=_many_init, initargs=(kw,)) as pool:
+        pids = [p.pid for p in getattr(pool, "_pool", [])]
         out = pool.map(_many_run, worlds, chunksize=max(1, min(8, len(worlds) // (procs * 4) or 1)))
+    sandbox.remove_for_pids(pids)
     return out
 
 
